@@ -326,7 +326,7 @@ fn check_tree(rep: &mut Report, case: u64, world: &World, shape: &Shape, ik: usi
         other => rep.violation(case, format!("C15:translate:{}", how), format!("identity key translation gives {:?}: {}", other.map(|x| x.0.chars().take(200).collect::<String>()), brief())),
     }
     // the same tree built through the TapTree::leaf / combine API
-    if n <= 64 {
+    if n <= 300 {
         let mss: Vec<Miniscript<Dk, Tap>> = names.iter().filter_map(|m| Miniscript::<Dk, Tap>::from_str(m).ok()).collect();
         if mss.len() == n {
             match guarded(std::panic::AssertUnwindSafe(|| shape.build_lib(&mss).and_then(|t| Tr::new(tr.internal_key().clone(), Some(t)).map_err(|e| e.to_string())))) {
